@@ -196,6 +196,10 @@ func (session *HermesSession) Run(workingDir string, args []string, logID string
 		}
 		herPath.SetPreCorrFolder(path.Join(driConfig.WeatherRootFolder, driConfig.WeatherFolder))
 		var bbbShared WeatherDataShared
+		// a start year after the year of the end date: no weather year could be loaded
+		if endYear, _, _ := KalenderDate(g.ENDE); endYear < g.ANJAHR {
+			return fmt.Errorf("start year %v is after the year of the end date %v", g.ANJAHR, endYear)
+		}
 		// format multiple years per weather file
 		if driConfig.WeatherFileFormat == 1 {
 			yearEnde, _, _ := KalenderDate(g.ENDE)
